@@ -231,6 +231,11 @@ def _run_twin(case, ctx):
             ctx.count("skipped", "conversion refused")
             ctx.trivial += 1
             return
+        if r.random() < 0.4:
+            # ... and exported and re-imported in that representation
+            twin = isotherm_from_json(twin.to_json())
+            info["transformation"] = dict(desc, then="json round trip")
+            how = "convert+json"
     elif how == "json":
         twin = isotherm_from_json(base.to_json())
         info["transformation"] = "json round trip"
@@ -248,7 +253,7 @@ def _run_twin(case, ctx):
         ctx.violation(key + "/raises-after-%s/%s" % (how, type(rb[1]).__name__), "the analysis succeeds on the isotherm but raises on its transformed copy", exc=rb[1], **info)
         return
     rt = _rt(entry)
-    if entry.startswith("initial_henry") and how == "convert":
+    if entry.startswith("initial_henry") and how.startswith("convert"):
         # reported in the isotherm's own units: changes by exactly the unit factors
         fl = RU.fluid(gen.backend_of(str(base.adsorbate)))
         T = base.temperature
